@@ -37,6 +37,15 @@ def atom_value(name, env, default=None, depth=0):
             return (min if op == "min" else max)(ev(0), ev(1))
         if op == "abs" and len(args) == 1:
             return abs(ev(0))
+        if op == "signum" and len(args) == 1:
+            v = ev(0)
+            return 1.0 if v > 0 else -1.0 if v < 0 else 0.0
+        if op == "neg" and len(args) == 1:
+            return -ev(0)
+        if op == "inv" and len(args) == 1:
+            return 1.0 / ev(0)
+        if op == "sqrt" and len(args) == 1:
+            return ev(0) ** 0.5
         if op == "maporr":
             # Option::map_or on a present value: the closure's value
             return ev(1)
